@@ -5,14 +5,11 @@ set -e
 cd "$(dirname "$0")"
 V=$(pwd)
 mkdir -p build evidence replays
+python3 tools/gen/gen_all.py || echo "setup: a translator rejected the source (checks will report it)"
 cd coq
-python3 ../tools/gen/gen_all.py || true
+{ echo "-Q . LF"; ls *.v gen/*.v 2>/dev/null | grep -v '^ZZ' | sort; } > _CoqProject
 coq_makefile -f _CoqProject -o Makefile >/dev/null
-timeout 3000 make -k -j16 2>&1 | tail -n 40 || true
-cd extract
-rm -rf build && mkdir -p build
-( cd build && timeout 600 coqc -Q ../.. LF ../Extract.v && rm -f Extract.* )
-cp driver.ml models.ml build/
-cd build
-ocamlfind ocamlopt -w -a $(ocamldep -sort *.mli *.ml) -o "$V/build/driver"
+timeout 3400 make -k -j16 2>&1 | grep -v '^Closed under\|^COQC\|^COQDEP' | tail -n 40 || true
+cd "$V"
+tools/mkdriver.sh "$V/build"
 echo "setup done"
